@@ -415,9 +415,17 @@ pub struct QueryState<'a> {
 
 impl Drop for QueryState<'_> {
     fn drop(&mut self) {
-        // FIXME: This may be wrong if the iterator is not fully consumed, but from testing it
-        // seems fine. Is this really ok?
-        self.machine.trust_me();
+        // the query may have left choice points above the stub choice point
+        // (the iterator was not consumed to the end): discard them all, then
+        // pop the stub itself, which restores the trail, stack and heap to
+        // their state from before the query.
+        if self.machine.machine_st.b > self.stub_b {
+            self.machine.machine_st.b = self.stub_b;
+        }
+
+        if self.machine.machine_st.b == self.stub_b {
+            self.machine.trust_me();
+        }
     }
 }
 
